@@ -551,7 +551,7 @@ static void runCase(const InfoSet &base, Rng &rng, Gen &g, int nPerm, int nMut, 
     corr("reset", "ok");
     std::string real = realVer(base, int(g_cases));
     corr("ver " + enc, real);
-    if (samplesLeft() > 0) sample("ver " + enc + " => " + real);
+    if (g_cases <= 4) sample("ver " + enc + " => " + real);
     stat("cases");
     if (base.hasForm) stat("cases_with_form");
     if (hasAstral(base)) stat("cases_with_non_bmp");
@@ -884,7 +884,7 @@ int main(int argc, char **argv)
     }
 
     // ---- small sets, every permutation of every section
-    int nSmall = thorough ? 6000 : 600;
+    int nSmall = thorough ? 18000 : 600;
     for (int k = 0; k < nSmall; k++) {
         g.ambiguous = false; g.astral = k % 3 != 0;
         InfoSet b = g.info(3, 4, false);
@@ -893,7 +893,7 @@ int main(int argc, char **argv)
     stat("small_sets_all_permutations", nSmall);
 
     // ---- the property's stated sizes: ≤ 4 identities, ≤ 6 features with duplicates, optional form
-    int nRand = thorough ? 60000 : 5000;
+    int nRand = thorough ? 180000 : 5000;
     for (int k = 0; k < nRand; k++) {
         g.ambiguous = false; g.astral = k % 4 != 0;
         InfoSet b = g.info(4, 6, false);
@@ -902,7 +902,7 @@ int main(int argc, char **argv)
     stat("random_sets", nRand);
 
     // ---- forms outside the XEP's domain (repeated var, FORM_TYPE missing / multi-valued): correspondence only
-    int nWeird = thorough ? 12000 : 1200;
+    int nWeird = thorough ? 30000 : 1200;
     for (int k = 0; k < nWeird; k++) {
         g.ambiguous = false; g.astral = true;
         InfoSet b = g.info(2, 3, true);
@@ -912,7 +912,7 @@ int main(int argc, char **argv)
 
     // ---- separator characters inside components: the XEP string is ambiguous there (XEP-0115 §5.4 rejects '<' on receipt);
     //      equality with the XEP value and with the model is still checked
-    int nAmb = thorough ? 12000 : 1200;
+    int nAmb = thorough ? 30000 : 1200;
     for (int k = 0; k < nAmb; k++) {
         g.ambiguous = true; g.astral = true;
         InfoSet b = g.info(3, 4, false);
@@ -924,7 +924,7 @@ int main(int argc, char **argv)
     // ---- part 2
     QTcpServer server; g_server = &server;
     if (!server.listen(QHostAddress::LocalHost)) { fprintf(stderr, "cannot listen on loopback\n"); return 3; }
-    int nClient = thorough ? 1500 : 200;
+    int nClient = thorough ? 4000 : 200;
     for (int k = 0; k < nClient; k++) {
         printf("I client-case %d\n", k); fflush(stdout);
         runClientCase(rng, g, k);
